@@ -768,7 +768,16 @@ def expected(chain, text, entry=None, pos=0, fullparse=True, budget=200000, late
     entry None = module-level parse.  Returns (outcome, model)."""
     m = Model(chain, text, budget=budget, late_ignore=late_ignore)
     name = m.entry_name() if entry is None else entry
-    r = m.call_rule(name, m.ctx, pos)
+    if isinstance(name, tuple):
+        # a parameterised class used as entry point, Cls.parse(*values)(text, ...): the class body with
+        # the parameters bound to the given Python values
+        cname, values = name
+        lv, (kind, params, body) = m.lookup(cname, m.ctx)
+        if kind != 'class' or params is None or len(params) != len(values):
+            raise IllFormed('entry %r is not a class with %d parameters' % (cname, len(values)))
+        r = m.rule_body(cname, lv, kind, body, pos, dict(zip(params, values)))
+    else:
+        r = m.call_rule(name, m.ctx, pos)
     if r is FAIL:
         return ('error',), m
     v, e = r
